@@ -1,24 +1,45 @@
-(* Correspondence evaluator for C01: a universe = common prefix + two branches, run on the real liskbft module.
-   Result: 0 ok (implementation agrees with the model on both chains and its finalized blocks are on one chain, or the
-   property's hypotheses do not hold); 1 implementation differs from the model (bookkeeping only); 2 differs on the
-   property's observables; 20/21/22 = the implementation's own views finalize conflicting blocks although < 1/3 of the
-   weight is Byzantine: 20 static validator set with prevoteThr+precommitThr <= W+f (known finding: low threshold),
-   21 a parameter change at or above the fork point (known finding), 22 any other case (violation). *)
+(* Correspondence evaluator for C01: a universe = common prefix + two branches of blocks WITH IDENTITY (every block carries
+   an opaque id; liskbft never sees it), run on the real liskbft module.
+   Result: 0 ok (implementation agrees with the model on both chains and its finalized blocks -- ids included -- are on one
+   chain, or the property's hypotheses do not hold); 1 implementation differs from the model (bookkeeping only); 2 differs on
+   the property's observables; 9 malformed case (id lists do not match the block lists).  20/21/22 are reached ONLY when the
+   implementation agrees with the model on both chains: the implementation's own views finalize conflicting blocks although
+   < 1/3 of the weight is Byzantine (Byzantine = some two DISTINCT blocks of the validator, distinct as identified histories,
+   carry contradicting headers; a same-tuple / different-id double forger is Byzantine):
+     21 the BFT parameters (precommit threshold, validator weights) in force at some height between the fork point and the
+        finalized height of a branch differ from those in force at the fork point (known finding: fork-dependent change);
+        a no-op change, a certificate-threshold-only change or a change taking effect above the branch's finalized height
+        does NOT count;
+     20 otherwise, with prevoteThr+precommitThr <= W+f for the parameters at the fork point (known finding: low threshold);
+     22 otherwise (violation). *)
 From Coq Require Import List NArith Bool.
 From LE Require Import Base.Corr BFT.Contradiction BFT.Votes BFT.Universe Corr.C02.
 Import ListNotations.
 Local Open Scope N_scope.
 
-Definition uni_case : Type := nat * N * pchange * list block * list block * list block * bool * list obs * list obs.
+Definition uni_case : Type :=
+  nat * N * pchange * list block * list block * list block * bool * list obs * list obs * list N * list N * list N.
 
 Definition last_fin (gh : N) (l : list obs) : N :=
   match rev l with o :: _ => (let '(_, pc, _) := o_heights o in pc) | [] => gh end.
 Definition all_ok (n : nat) (l : list obs) : bool :=
   Nat.eqb (length l) n && forallb (fun o => (o_err o =? 0) && negb (o_contra o)) l.
 
+(* parameters in force at height h on chain K: the last change announced by a block of height < h, else the initial ones *)
+Definition in_force (gh : N) (c : pchange) (K : list block) (h : N) : pchange :=
+  fold_left (fun acc x => match snd x with Some c' => c' | None => acc end) (firstn (N.to_nat (h - gh - 1)) K) c.
+(* equal as far as safety is concerned: precommit threshold and validator weights (the prevote threshold is a function of them) *)
+Definition same_bft (p q : pchange) : bool :=
+  (c_pc p =? c_pc q) && vals_equal (sort_desc (c_vals p)) (sort_desc (c_vals q)).
+Definition heights_above (fork f : N) : list N := map (fun i => fork + 1 + N.of_nat i) (seq 0 (N.to_nat (f - fork))).
+Definition changed_below (gh : N) (c cf : pchange) (K : list block) (fork f : N) : bool :=
+  negb (forallb (fun h => same_bft (in_force gh c K h) cf) (heights_above fork f)).
+
 Definition check_uni (u : uni_case) : N :=
-  let '(batch, gh, c, common, a, b, initok, obsA, obsB) := u in
+  let '(batch, gh, c, common, a, b, initok, obsA, obsB, idsC, idsA, idsB) := u in
   let K1 := common ++ a in let K2 := common ++ b in
+  if negb (Nat.eqb (length idsC) (length common) && Nat.eqb (length idsA) (length a) && Nat.eqb (length idsB) (length b)) then 9 else
+  let T1 := combine (idsC ++ idsA) K1 in let T2 := combine (idsC ++ idsB) K2 in
   let ca := check_hist (batch, gh, c, K1, initok, obsA) in
   let cb := check_hist (batch, gh, c, K2, initok, obsB) in
   if (2 <=? ca) || (2 <=? cb) then 2 else
@@ -32,12 +53,12 @@ Definition check_uni (u : uni_case) : N :=
                  (combine K2 (gh :: map (fun o => let '(pv, _, _) := o_heights o in pv) obsB))) in
   if negb valid then 0 else
   let f1 := last_fin gh obsA in let f2 := last_fin gh obsB in
-  if comparable (finalized_prefix gh K1 f1) (finalized_prefix gh K2 f2) then 0 else
+  if tcomparable (tfinalized_prefix gh T1 f1) (tfinalized_prefix gh T2 f2) then 0 else
   (* parameters in force at the fork point: the last change announced in the common prefix, else the initial ones *)
-  let cf := fold_left (fun acc x => match snd x with Some c' => c' | None => acc end) common c in
+  let fork := gh + N.of_nat (length common) in
+  let cf := in_force gh c common (fork + 1) in
   let W := total_weight (c_vals cf) in
-  let f := byz_weight (c_vals cf) [K1; K2] in
+  let f := tbyz_weight (c_vals cf) [T1; T2] in
   if negb (3 * f <? W) then 0 else
-  if static_chain a && static_chain b then
-    (if (W * 2 / 3 + 1) + c_pc cf <=? W + f then 20 else 22)
-  else 21.
+  if changed_below gh c cf K1 fork f1 || changed_below gh c cf K2 fork f2 then 21 else
+  if (W * 2 / 3 + 1) + c_pc cf <=? W + f then 20 else 22.
